@@ -182,7 +182,7 @@ func pipeWorker(req json.RawMessage) interface{} {
 	defer cancel()
 	start := time.Now()
 	atomic.StoreInt64(&cursorAdvances, 0)
-	if in.Via == "server" {
+	if in.Via == "server" || in.Via == "server-keepctx" {
 		return serverRun(in, wd, base)
 	}
 	res := pipeline.Run(ctx, pipe, wd)
@@ -231,11 +231,16 @@ type dropStream struct {
 	after  int64
 	sent   int64
 	cancel context.CancelFunc
+	// the send error reaches the handler while the stream's context is still alive (the cancellation follows later):
+	// the handler has to drain, or stop, the pipeline itself
+	keepCtx bool
 }
 
 func (d *dropStream) Send(r *gripql.QueryResult) error {
 	if d.after >= 0 && atomic.LoadInt64(&d.sent) >= d.after {
-		d.cancel()
+		if !d.keepCtx {
+			d.cancel()
+		}
 		return fmt.Errorf("rpc error: code = Unavailable desc = transport is closing")
 	}
 	atomic.AddInt64(&d.sent, 1)
@@ -254,7 +259,7 @@ func serverRun(in c07Input, wd string, base int) c07Obs {
 	}
 	ctx, cancel := context.WithCancel(context.Background())
 	defer cancel()
-	st := &dropStream{fakeStream: fakeStream{ctx}, after: in.Cancel, cancel: cancel}
+	st := &dropStream{fakeStream: fakeStream{ctx}, after: in.Cancel, cancel: cancel, keepCtx: in.Via == "server-keepctx"}
 	done := make(chan error, 1)
 	start := time.Now()
 	go func() { done <- srv.Traversal(&gripql.GraphQuery{Graph: "g", Query: progProto(in.Prog)}, st) }()
@@ -349,6 +354,8 @@ func c07Inputs(ctx *Ctx) []c07Input {
 					out = append(out, c07Input{Graph: g, Prog: []tStmt{V, st("both")}, Scan: N, Stages: []c07Stage{fan(2 * d)}, Cancel: c, Via: "server"})
 				}
 				out = append(out, c07Input{Graph: g, Prog: []tStmt{V, st("out"), st("outE")}, Scan: N, Stages: []c07Stage{fan(d), fan(d)}, Cancel: 1, Via: "server"})
+				// ... and with a send error that arrives while the stream's context is still alive
+				out = append(out, c07Input{Graph: g, Prog: []tStmt{V, st("both")}, Scan: N, Stages: []c07Stage{fan(2 * d)}, Cancel: 10, Via: "server-keepctx"})
 			}
 		}
 	}
@@ -385,7 +392,7 @@ func runC07(ctx *Ctx) error {
 	ctx.Shard = 400
 	ctx.Scope = "N_scope"
 	ctx.Exhaustive = true
-	ctx.Rule = "grid: circulant graphs (N vertices, out-degree d in {1,3}) with N in {0,1,99,101,1001,2300,5001} (thorough adds 100,999,1000,2001,5000,12000,26000: below, at and several multiples above every internal capacity 100/1000/5000) x 15 cycle-free programs (scan, out, both, bothE, E.both, outE.out, both.limit, both.count, both.distinct, both.aggregate(term), both.aggregate(percentile / percentile+term / histogram over a field that holds text on one vertex in 997; twelve aggregations in one step), both.both, bothE.both.bothE) and star graphs (hub with M leaves, M in {1,300,999,1001,2300,5001,7500}; thorough 1000,2001,12000,30000) x 9 programs that fan one traveler out into M (two of them with a limit behind the fan-out); cancellation after 0/1/150/5001/10 rows on the large ones, also through the server's Traversal handler with a client that goes away after 1/10/150 rows (Send fails, the stream's context is cancelled); each run through the production compiler and pipeline.Run on badger in a worker sub-process with a 25 s deadline; observed: stream closed, rows, goroutines above the pre-run baseline after settling, entries left in the work directory, cursor advances on the store (bounded for limit programs on the large graphs: a satisfied limit stops the scan behind it); non-trivial = more rows than the smallest internal buffer (100); distinct by input"
+	ctx.Rule = "grid: circulant graphs (N vertices, out-degree d in {1,3}) with N in {0,1,99,101,1001,2300,5001} (thorough adds 100,999,1000,2001,5000,12000,26000: below, at and several multiples above every internal capacity 100/1000/5000) x 15 cycle-free programs (scan, out, both, bothE, E.both, outE.out, both.limit, both.count, both.distinct, both.aggregate(term), both.aggregate(percentile / percentile+term / histogram over a field that holds text on one vertex in 997; twelve aggregations in one step), both.both, bothE.both.bothE) and star graphs (hub with M leaves, M in {1,300,999,1001,2300,5001,7500}; thorough 1000,2001,12000,30000) x 9 programs that fan one traveler out into M (two of them with a limit behind the fan-out); cancellation after 0/1/150/5001/10 rows on the large ones, also through the server's Traversal handler with a client that goes away after 1/10/150 rows (Send fails, the stream's context is cancelled at once or stays alive); each run through the production compiler and pipeline.Run on badger in a worker sub-process with a 25 s deadline; observed: stream closed, rows, goroutines above the pre-run baseline after settling, entries left in the work directory, cursor advances on the store (bounded for limit programs on the large graphs: a satisfied limit stops the scan behind it); non-trivial = more rows than the smallest internal buffer (100); distinct by input"
 	var inputs []c07Input
 	if ctx.Replay != nil {
 		var in c07Input
